@@ -477,9 +477,11 @@ pub fn run(run: &mut Run) {
         let hs: Vec<_> = pats.iter().map(|p| sc.spawn(move || (p.clone(), crate::engine::guarded(|| expiry_oracle(p))))).collect();
         hs.into_iter().map(|h| h.join().expect("expiry thread")).collect()
     });
+    let n_expiry = verdicts.len();
     for (p, v) in verdicts {
         run.custom("expiry-refresh", &p, v);
     }
+    run.note_campaign(serde_json::json!({"name": "expiry-refresh", "kind": "enumerated", "evaluations": n_expiry}));
     if run.tier == crate::engine::Tier::Thorough {
         // coverage-guided byte fuzzing of the same oracle (libFuzzer, structure-aware through fuzzde); see fuzzbridge.rs
         crate::fuzzbridge::campaign(run, "c09", 3_000_000, 400);
